@@ -122,6 +122,18 @@ func init() {
 			{Name: "storms", Timeout: 90 * time.Second, Count: func(t string) int { return tierN(t, 200, 12000) }, Run: func(c *sup.Ctx) {
 				stormScenario(c, rng.New(c.Seed, rng.HashString("C13storm"), uint64(c.Local)))
 			}},
+			{Name: "in-memory-url-with-a-path", Timeout: 60 * time.Second, Count: func(t string) int { return tierN(t, 8, 80) }, Run: func(c *sup.Ctx) {
+				c.Count("in_memory_buckets_deleted_next_to_an_on_disk_bucket", 1)
+				c.Cell(fmt.Sprintf("memory-url|memFirst=%v", c.Local%2 == 1))
+				for _, p := range life.MemoryURLWithPath(c.Tmp, c.Local%2 == 1) {
+					kind, text := splitKind(p)
+					if kind == "setup" {
+						c.Incon(text)
+						continue
+					}
+					c.Viol([]string{"C13"}, "storm|"+kind, text, nil)
+				}
+			}},
 			{Name: "storms-race", Race: true, Timeout: 120 * time.Second, Count: func(t string) int { return tierN(t, 16, 160) }, Run: func(c *sup.Ctx) {
 				stormScenario(c, rng.New(c.Seed, rng.HashString("C13stormrace"), uint64(c.Local)))
 			}},
